@@ -199,9 +199,10 @@ Ev(C, e, x0, inv, rn) ==
                     args |-> <<"l", args>>, store |-> StoreSnap(x.store), g |-> x.g]
              st == x.store
              st1 == CASE n.op = "set" -> [st EXCEPT ![n.key] = n.arg]
-                      [] n.op = "inc" -> [st EXCEPT ![n.key] = (IF @ = -1 THEN 0 ELSE @) + n.arg]
+                      [] n.op = "inc" -> [st EXCEPT ![n.key] = (IF @ < 0 THEN 0 ELSE @) + n.arg]
                       [] n.op = "app" -> [st EXCEPT !.cl = Append(@, n.arg)]
                       [] n.op = "del" -> [st EXCEPT ![n.key] = -1]
+                      [] n.op = "nil" -> [st EXCEPT ![n.key] = -2]      \* the key is PRESENT and holds nil (-1: no such key)
                       [] OTHER -> st
              x1 == [x EXCEPT !.log = Append(@, ev), !.store = st1, !.g = @ + n.g]
          IN IF n.blk = C.opt.panicblk
@@ -211,7 +212,7 @@ Ev(C, e, x0, inv, rn) ==
          LET args == [i \in 1..Len(n.args) |-> Lookup(x.env, n.args[i], Len(x.env))]
              ev == [blk |-> n.blk, kind |-> "pred", pos |-> LineCol(C.inp, pos), text |-> <<>>,
                     args |-> <<"l", args>>, store |-> StoreSnap(x.store), g |-> x.g]
-             cur == IF n.key = "cl" THEN Len(x.store.cl) ELSE IF x.store[n.key] = -1 THEN 0 ELSE x.store[n.key]
+             cur == IF n.key = "cl" THEN Len(x.store.cl) ELSE IF x.store[n.key] < 0 THEN 0 ELSE x.store[n.key]
              b == CASE n.op = "true" -> TRUE [] n.op = "false" -> FALSE
                     [] n.op = "eq" -> cur = n.arg
                     [] n.op = "glt" -> x.g < n.arg
